@@ -170,6 +170,22 @@ Theorem C06_trace_succeeds : forall c ops s, reach c s -> wf_all c s ops = true 
 Proof. exact Proof.C06_ok.trace_succeeds. Qed.
 Print Assumptions C06_trace_succeeds.
 
+(* 8. A crash DURING recovery is harmless: recovery's own mutations are removals of entries it
+   drops (and of the incomplete area when it is wiped); from any disk such an interrupted removal can
+   leave, the next recovery yields the same store (same entries, same sizes, same directories). *)
+Theorem C06_recovery_crash_harmless : forall c f f' s1,
+  interrupted_recovery c f f' -> recover c f = Some s1 ->
+  exists s2, recover c f' = Some s2 /\ msize s2 = msize s1 /\
+    forall x, mem s2 x = mem s1 x /\ blobs (disk s2) x = blobs (disk s1) x.
+Proof. exact Proof.C06.recovery_crash_harmless. Qed.
+Print Assumptions C06_recovery_crash_harmless.
+
+Theorem C06_recovery_crash_nonvacuous :
+  interrupted_recovery (Proof.C06.cfg_w true) Proof.C06.ex_f Proof.C06.ex_f' /\
+  blobs Proof.C06.ex_f 0 <> blobs Proof.C06.ex_f' 0 /\
+  exists s1, recover (Proof.C06.cfg_w true) Proof.C06.ex_f = Some s1 /\ mem s1 0 = None.
+Proof. exact Proof.C06.recovery_crash_nonvacuous. Qed.
+
 (* The recovery of the pinned commit (before fixes/C06_*.patch), [recover_old], violates clauses 1 and 5. *)
 Theorem C06_empty_size_refuted :
   exists c s o k, reach c s /\ wf_op c s o = true /\ recover_old c (crash c s o k) = None.
